@@ -50,6 +50,8 @@ def do_send(sc, rng):
         try:
             if api == "send":
                 ret = ws.send(payload, sc["op"])
+            elif api == "send_default":
+                ret = ws.send(payload)
             elif api == "send_binary":
                 ret = ws.send_binary(payload)
             elif api == "send_bytes":
@@ -87,7 +89,7 @@ def expected(sc):
         return 1, sc["op"], pb, True
     if api in ("send_binary", "send_bytes"):
         return 1, 2, pb, True
-    if api == "send_text":
+    if api in ("send_text", "send_default"):
         return 1, 1, pb, True
     if api == "ping":
         return 1, 9, pb, False
@@ -139,6 +141,12 @@ def scenarios(tier, rng):
         if i % 7 == 0:
             yield {"api": ["send", "send_binary", "send_bytes"][i % 3], "op": 2, "lcg": [n, i + 3],
                    "key": keys[i % 3], "bytearray": i % 2 == 0}
+    # send(payload, opcode) with every opcode, 0 (continuation) included, and with the default opcode
+    for n in (0, 1, 5, 125):
+        for op in (0, 1, 2, 8, 9, 10):
+            yield {"api": "send", "op": op, "lcg": [n, n + op + 11], "key": keys[(n + op) % 3]} if op != 1 else \
+                  {"api": "send", "op": 1, "text": "t" * n, "key": keys[(n + op) % 3]}
+        yield {"api": "send_default", "text": "d" * n, "key": "bytes"}
     # short-write patterns
     for n in (1, 5, 126, 300):
         for pat in ([1] * 400, [2, 3, 1, 100], [1, 1000000], [7]):
